@@ -238,6 +238,31 @@ type Ev = vt.Ev
 
 func withKV(e Ev, k string, v any) Ev { e[k] = v; return e }
 
+// KeyOfMap recovers the abstract key name from an element map (5-tuple fields).
+func KeyOfMap(m map[string]interface{}) string {
+	get := func(n string) string {
+		if ip, ok := m[n].(net.IP); ok && ip != nil {
+			return ip.String()
+		}
+		return ""
+	}
+	src, dst := get("sourceIPv4Address"), get("destinationIPv4Address")
+	if src == "" {
+		src, dst = get("sourceIPv6Address"), get("destinationIPv6Address")
+	}
+	fk := intermediate.FlowKey{SourceAddress: src, DestinationAddress: dst}
+	if v, ok := m["protocolIdentifier"].(uint8); ok {
+		fk.Protocol = v
+	}
+	if v, ok := m["sourceTransportPort"].(uint16); ok {
+		fk.SourcePort = v
+	}
+	if v, ok := m["destinationTransportPort"].(uint16); ok {
+		fk.DestinationPort = v
+	}
+	return KeyName(fk)
+}
+
 // Snapshot adds the projected state to ev.
 func (p *P) Snapshot(ev vt.Ev) vt.Ev {
 	flows, items, _ := p.A.VerifSnapshot()
